@@ -82,6 +82,34 @@ def mechanism(ok, tier):
             "note": "every work-list / input / block order of do_minimize as modelled in Hopcroft.tla, on the distinct raw automata (<= %d states, <= 4 inputs) of this corpus" % (5 if tier == "quick" else 6)}
 
 
+def trace_validation(ok, tier, corrupt=None):
+    """(d) the steps the instrumented do_minimize reported (hook events, feature `verif`) are a behaviour of Hopcroft.tla"""
+    pick = [r for r in ok if len(r["obs"]["raw"]["tr"]) >= 2][:: max(1, len(ok) // (250 if tier == "quick" else 3000))]
+    rec = core.record("mintrace", [{"id": r["id"], "usage": r["usage"], "shell": r["shell"]} for r in pick])
+    cases = []
+    for r in rec:
+        o = r["obs"]
+        if o.get("verdict") != "ok":
+            continue
+        x = numeric(o["raw"])
+        if x is None or x["n"] > 12:
+            continue
+        x["id"] = r["id"]
+        x["events"] = o["events"]
+        cases.append(x)
+    if corrupt:
+        corrupt(cases)
+    if not cases:
+        return {"traces": 0}
+    res = core.run_tlc_sharded("HopTrace.tla", "HopTrace.cfg", cases, shards=8, workers=1, prefix="hoptrace", timeout=3000)
+    acc = {x[0] for x in res.tagged("ACCEPTED")}
+    rejected = [c["id"] for c in cases if c["id"] not in acc]
+    for i in rejected[:3]:
+        core.log("MODEL-DRIFT (not a verdict): the recorded steps of do_minimize for case %s are not a behaviour of Hopcroft.tla" % i)
+    return {"traces": len(cases), "traces_accepted": len(acc), "traces_not_a_behaviour": len(rejected), "trace_events": sum(len(c["events"]) for c in cases),
+            "trace_states": res.distinct, "rejected_ids": rejected[:10]}
+
+
 def run(tier):
     t0 = time.time()
     core.build(need_bin=False)
@@ -115,6 +143,7 @@ def run(tier):
                 {"usage": r["usage"], "shell": r["shell"], "which": d["which"], "problems": d["problems"]})
     # (c) mechanism model: Hopcroft.tla over every distinct raw automaton, all schedules (design-level; predictions only)
     mech = mechanism(ok, tier)
+    mech.update(trace_validation(ok, tier))
     nauto = sum(1 + len(r["obs"]["minsubs"]) for r in ok)
     if len(validated_a) < len(ok) or len(validated_b) < nauto:
         raise core.ToolError("vacuity: validated %d/%d (language) %d/%d (structure)" % (len(validated_a), len(ok), len(validated_b), nauto))
@@ -124,7 +153,7 @@ def run(tier):
                for r in shrunk[:: max(1, len(shrunk) // 5)][:5]]
     cov = {"states": res_a.distinct + res_b.distinct + mech["states"], "transitions": res_a.generated + res_b.generated + mech["transitions"],
            "mechanism_model": mech,
-           "traces_validated_against_impl": len(validated_a) + len(validated_b), "samples": samples or [{"usage": ok[0]["usage"]}],
+           "traces_validated_against_impl": len(validated_a) + len(validated_b) + mech.get("traces_accepted", 0), "samples": samples or [{"usage": ok[0]["usage"]}],
            "programs": len(ok), "automata_checked_for_minimality": nauto, "exhaustive": complete, "exhaustive_trees_total": total,
            "evaluations": len(validated_a) + len(validated_b),
            "distinct_nontrivial": len({r["usage"] for r in shrunk}),
